@@ -120,6 +120,14 @@ func c18Jobs(max int) []c18Job {
 		jobs[len(jobs)-1].Trunc = true
 		add("generated:"+g.format+"-nested", g.data, "-d", g.format, "-c", "tovalue")
 	}
+	// two raw-IP captures whose IPv4 fragment trains share (source, destination, id): the first holds only the first
+	// fragment (an unfinished train), the second the complete datagram with other bytes. Reassembly state must not
+	// survive from one decode to the next (seed C18-G: a process-wide defragmenter).
+	for _, g := range c18FragCaptures() {
+		add("generated:"+g.name, g.data, "-d", "pcap", "dv")
+		jobs[len(jobs)-1].Good = true
+		add("generated:"+g.name, g.data, "-d", "pcap", "-c", "[.ipv4_reassembled[]? | tobytes | tohex]")
+	}
 	// failing decodes: a sample under a foreign format
 	foreign := []string{"mp3", "png", "zip", "msgpack", "json", "elf", "mp4", "gzip", "tar", "flac", "pcap", "wav"}
 	for i, it := range wrong {
@@ -242,6 +250,58 @@ func c18Jobs(max int) []c18Job {
 		jobs = keep
 	}
 	return jobs
+}
+
+type c18Capture struct {
+	name string
+	data []byte
+}
+
+// c18FragCaptures writes the two captures by hand (pcap little-endian, link type 101 = raw IP, protocol 253).
+func c18FragCaptures() []c18Capture {
+	be16 := func(v int) []byte { return []byte{byte(v >> 8), byte(v)} }
+	le32 := func(v int) []byte { return []byte{byte(v), byte(v >> 8), byte(v >> 16), byte(v >> 24)} }
+	frag := func(fill byte, offUnits int, more bool, n int) []byte {
+		h := []byte{0x45, 0}
+		h = append(h, be16(20+n)...)
+		h = append(h, be16(0x4242)...)
+		ff := offUnits
+		if more {
+			ff |= 0x2000
+		}
+		h = append(h, be16(ff)...)
+		h = append(h, 64, 253, 0, 0, 10, 0, 0, 1, 10, 0, 0, 2)
+		sum := 0
+		for i := 0; i < 20; i += 2 {
+			sum += int(h[i])<<8 | int(h[i+1])
+		}
+		for sum>>16 != 0 {
+			sum = sum&0xffff + sum>>16
+		}
+		c := ^sum & 0xffff
+		h[10], h[11] = byte(c>>8), byte(c)
+		for i := 0; i < n; i++ {
+			h = append(h, fill)
+		}
+		return h
+	}
+	file := func(pkts ...[]byte) []byte {
+		b := []byte{0xd4, 0xc3, 0xb2, 0xa1, 2, 0, 4, 0, 0, 0, 0, 0, 0, 0, 0, 0}
+		b = append(b, le32(65535)...)
+		b = append(b, le32(101)...)
+		for i, p := range pkts {
+			b = append(b, le32(1000+i)...)
+			b = append(b, le32(0)...)
+			b = append(b, le32(len(p))...)
+			b = append(b, le32(len(p))...)
+			b = append(b, p...)
+		}
+		return b
+	}
+	return []c18Capture{
+		{"frag-unfinished.pcap", file(frag('A', 0, true, 16))},
+		{"frag-complete.pcap", file(frag('B', 0, true, 16), frag('B', 2, false, 8))},
+	}
 }
 
 // c18TreeDigest: names, ranges, value kinds, actual and symbolic values and errors of a whole decode tree
